@@ -1,7 +1,8 @@
 """C18 - spectral helpers equal their textbook definitions for every length.
 
 1. TLC: spec/lib/Spectral.tla - convolve as Pad / Transform / Inverse / Crop / ModeCrop on the impulse basis
-   (every impulse pair for lengths <= 10|14; first and last impulse for every pair of lengths <= 80|300),
+   (every impulse pair for lengths <= 10|14; first and last impulse for every pair of lengths <= 80|200; helper
+   facts for every length <= 80|300),
    ns_optim_fft, fscale, freduce / fexpand index maps, filter gain placement; property layer = direct
    convolution e_i * e_j = e_{i+j} ('full', 'same'), least 2^a 3^b, k/n bins with positive Nyquist,
    expand o reduce = Id on conjugate-symmetric spectra, lp / hp complementary.
@@ -379,14 +380,15 @@ def run_models(ctx):
     if ctx.quick:
         runs = [("mc/Spectral_basis_quick.cfg", None), ("mc/Spectral_quick.cfg", "pairs.json")]
     else:
-        runs = [("mc/Spectral_basis_thorough.cfg", None), ("mc/Spectral_thorough.cfg", "pairs.json")]
+        runs = [("mc/Spectral_basis_thorough.cfg", None), ("mc/Spectral_thorough.cfg", None),
+                ("mc/Spectral_export300.cfg", "pairs.json")]
 
     def one(r):
         cfg, out = r
         return r, tlc.run("mc/MC_Spectral.tla", cfg, workers=2 if ctx.quick else 4, timeout=3000, heap="6g",
                           env={"OUT_FILE": str(ctx.scratch / (out or "unused.json"))})
     exp = None
-    with ThreadPoolExecutor(max_workers=2) as ex:
+    with ThreadPoolExecutor(max_workers=3) as ex:
         for (cfg, out), res in ex.map(one, runs):
             ctx.tlc(res, cfg)
             if not res.ok:
